@@ -401,6 +401,23 @@ pub fn raw_lzma_reused(
     })
 }
 
+/// One raw LzmaDecoder object (size unknown): decompress `first` into a scratch
+/// sink, then - WITHOUT reset - decompress `second`. Returns (first ok?, run of second).
+pub fn raw_lzma_continue(props: Props, dict: u32, first: &[u8], second: &[u8], io: &Io) -> (bool, Vec<u8>, Run) {
+    let mut first_ok = false;
+    let mut first_out = Vec::new();
+    let run = run_with(second, &ReaderKind::Slice, io, |mut r, w| {
+        let params = LzmaParams::new(lzma_props(props), dict, None);
+        let mut d = LzmaDecoder::new(params, None)?;
+        let mut scratch = SinkState::new(Default::default());
+        let mut f: &[u8] = first;
+        first_ok = d.decompress(&mut f, &mut scratch).is_ok();
+        first_out = std::mem::take(&mut scratch.data);
+        d.decompress(&mut r, w)
+    });
+    (first_ok, first_out, run)
+}
+
 pub fn raw_lzma2(input: &[u8], kind: &ReaderKind, io: &Io) -> Run {
     run_with(input, kind, io, |mut r, w| {
         let mut d = Lzma2Decoder::new();
